@@ -1,4 +1,249 @@
-use crate::fnfam::Out;
-use crate::rng::Rng;
-pub fn eval(_family: &str, _a: &[&str]) -> String { unimplemented!() }
-pub fn generate(_o: &mut Out, _family: &str, _r: &mut Rng, _n: u64) {}
+//! Function families over the factory registry helpers and the router's route-shape check:
+//!   pair_key, pair_key2 (two asset sets, for injectivity), read_pairs, walk, assert_operations.
+//! Raw identifiers are written `n<hex>` (native denom bytes) or `t<hex>` (canonical address bytes).
+use crate::fnfam::{guarded, Out};
+use crate::rng::*;
+use cosmwasm_std::testing::{MockApi, MockStorage};
+use cosmwasm_std::{CanonicalAddr, Uint128};
+use halo_factory::state::{pair_key, read_pairs, PAIRS};
+use haloswap::asset::{AssetInfo, AssetInfoRaw, CreatePairRequirements, PairInfoRaw};
+use haloswap::router::SwapOperation;
+
+fn hexs(b: &[u8]) -> String {
+    b.iter().map(|x| format!("{:02x}", x)).collect()
+}
+fn unhexb(h: &str) -> Vec<u8> {
+    (0..h.len() / 2).map(|i| u8::from_str_radix(&h[2 * i..2 * i + 2], 16).unwrap()).collect()
+}
+fn raw(s: &str) -> AssetInfoRaw {
+    let b = unhexb(&s[1..]);
+    if s.starts_with('n') {
+        AssetInfoRaw::NativeToken { denom: String::from_utf8(b).unwrap() }
+    } else {
+        AssetInfoRaw::Token { contract_addr: CanonicalAddr::from(b) }
+    }
+}
+fn pair_of(s: &str) -> [AssetInfoRaw; 2] {
+    let (a, b) = s.split_once('.').unwrap();
+    [raw(a), raw(b)]
+}
+fn enc(a: &AssetInfoRaw) -> String {
+    match a {
+        AssetInfoRaw::NativeToken { denom } => format!("n{}", hexs(denom.as_bytes())),
+        AssetInfoRaw::Token { contract_addr } => format!("t{}", hexs(contract_addr.as_slice())),
+    }
+}
+
+fn storage_with(ids: &str) -> MockStorage {
+    let mut st = MockStorage::new();
+    if ids != "-" {
+        for (i, p) in ids.split(';').enumerate() {
+            let infos = pair_of(p);
+            let key = pair_key(&infos);
+            PAIRS
+                .save(
+                    &mut st,
+                    &key,
+                    &PairInfoRaw {
+                        asset_infos: infos,
+                        // canonical addresses of MockApi are 54 bytes; any bytes humanise, keep them simple
+                        contract_addr: MockApi::default().addr_canonicalize(&format!("pair{:04}", i)).unwrap(),
+                        liquidity_token: MockApi::default().addr_canonicalize(&format!("lptk{:04}", i)).unwrap(),
+                        asset_decimals: [6, 6],
+                        requirements: CreatePairRequirements { whitelist: vec![], first_asset_minimum: Uint128::zero(), second_asset_minimum: Uint128::zero() },
+                        commission_rate: bignumber::Decimal256::zero(),
+                    },
+                )
+                .unwrap();
+        }
+    }
+    st
+}
+use cosmwasm_std::Api;
+
+fn info_raw(api: &MockApi, i: &AssetInfo) -> AssetInfoRaw {
+    i.to_raw(api).unwrap()
+}
+
+pub fn eval(family: &str, a: &[&str]) -> String {
+    guarded(|| match family {
+        "pair_key" => match a[0] {
+            "one" => format!("ok {}", hexs(&pair_key(&pair_of(a[1])))),
+            "two" => format!("ok {} {}", hexs(&pair_key(&pair_of(a[1]))), hexs(&pair_key(&pair_of(a[2])))),
+            _ => panic!("pair_key mode"),
+        },
+        "read_pairs" => {
+            let st = storage_with(a[1]);
+            let api = MockApi::default();
+            match a[0] {
+                "page" => {
+                    let start = if a[2] == "-" { None } else { Some(pair_of(a[2])) };
+                    let limit: Option<u32> = if a[3] == "-" { None } else { Some(a[3].parse().unwrap()) };
+                    match read_pairs(&st, &api, start, limit) {
+                        Ok(v) => {
+                            let l: Vec<String> = v.iter().map(|pi| format!("{}.{}", enc(&info_raw(&api, &pi.asset_infos[0])), enc(&info_raw(&api, &pi.asset_infos[1])))).collect();
+                            format!("ok {}", if l.is_empty() { "-".into() } else { l.join(";") })
+                        }
+                        Err(_) => "fail".into(),
+                    }
+                }
+                "walk" => {
+                    let limit: Option<u32> = if a[2] == "-" { None } else { Some(a[2].parse().unwrap()) };
+                    let mut out: Vec<String> = vec![];
+                    let mut cursor: Option<[AssetInfoRaw; 2]> = None;
+                    for _ in 0..200 {
+                        let v = read_pairs(&st, &api, cursor.clone(), limit).unwrap();
+                        if v.is_empty() {
+                            break;
+                        }
+                        for pi in &v {
+                            out.push(format!("{}.{}", enc(&info_raw(&api, &pi.asset_infos[0])), enc(&info_raw(&api, &pi.asset_infos[1]))));
+                        }
+                        let last = v.last().unwrap();
+                        cursor = Some([info_raw(&api, &last.asset_infos[0]), info_raw(&api, &last.asset_infos[1])]);
+                    }
+                    format!("ok {}", if out.is_empty() { "-".into() } else { out.join(";") })
+                }
+                _ => panic!("read_pairs mode"),
+            }
+        }
+        "assert_operations" => {
+            // ops: k:hex>k:hex;…   k = n|t, hex of the display text
+            let ops: Vec<SwapOperation> = if a[0] == "-" {
+                vec![]
+            } else {
+                a[0].split(';')
+                    .map(|h| {
+                        let (x, y) = h.split_once('>').unwrap();
+                        let mk = |s: &str| -> AssetInfo {
+                            let t = String::from_utf8(unhexb(&s[1..])).unwrap();
+                            if s.starts_with('n') { AssetInfo::NativeToken { denom: t } } else { AssetInfo::Token { contract_addr: t } }
+                        };
+                        SwapOperation::HaloSwap { offer_asset_info: mk(x), ask_asset_info: mk(y) }
+                    })
+                    .collect()
+            };
+            match halo_router::assert::assert_operations(&ops) {
+                Ok(()) => "ok".into(),
+                Err(_) => "fail".into(),
+            }
+        }
+        _ => panic!("unknown registry family"),
+    })
+}
+
+// ---- generators
+
+/// a pool of identifiers built to collide under plain concatenation and to share prefixes
+fn id_pool(r: &mut Rng) -> Vec<String> {
+    let api = MockApi::default();
+    let mut v: Vec<String> = vec![];
+    for d in ["uaura", "uusd", "uaurau", "usd", "u", "aura", "uaurauusd", "ibc/1F", "ibc/1", "F", "ua", "urau", "uaur", "auusd", "a", "b", "ab", "ba", "aa", "aaa"] {
+        v.push(format!("n{}", hexs(d.as_bytes())));
+    }
+    for i in 0..6 {
+        let name = format!("contract{}", i * 7 + r.below(3));
+        let c = api.addr_canonicalize(&name).unwrap();
+        v.push(format!("t{}", hexs(c.as_slice())));
+        // the same text as a denom: equal display text, different kind and raw bytes
+        v.push(format!("n{}", hexs(name.as_bytes())));
+    }
+    // short raw token ids (not MockApi-shaped) to stress the length prefix
+    for b in [vec![1u8], vec![1, 2], vec![2], vec![1, 2, 3], vec![0x61], vec![0x61, 0x62]] {
+        v.push(format!("t{}", hexs(&b)));
+    }
+    v
+}
+
+fn s<T: ToString>(x: T) -> String {
+    x.to_string()
+}
+
+pub fn generate(o: &mut Out, family: &str, r: &mut Rng, n: u64) {
+    let pool = id_pool(r);
+    match family {
+        "pair_key" => {
+            // every ordered pair of pool ids, then every pair of unordered sets over a sub-pool (collision search)
+            for x in &pool {
+                for y in &pool {
+                    o.case("pair_key", vec!["one".into(), format!("{x}.{y}")]);
+                }
+            }
+            let sub: Vec<&String> = pool.iter().take(16).collect();
+            for a in 0..sub.len() {
+                for b in a..sub.len() {
+                    for c in 0..sub.len() {
+                        for d in c..sub.len() {
+                            if (a, b) < (c, d) {
+                                o.case("pair_key", vec!["two".into(), format!("{}.{}", sub[a], sub[b]), format!("{}.{}", sub[c], sub[d])]);
+                            }
+                        }
+                    }
+                }
+            }
+            for _ in 0..n {
+                let p = |r: &mut Rng| format!("{}.{}", r.pick(&pool), r.pick(&pool));
+                let (x, y) = (p(r), p(r));
+                o.case("pair_key", vec!["two".into(), x, y]);
+            }
+        }
+        "read_pairs" => {
+            // stored records are humanised on the way out: token ids must be MockApi-shaped canonical addresses
+            let pool: Vec<String> = pool.into_iter().filter(|e| e.starts_with('n') || e.len() > 60).collect();
+            for i in 0..n {
+                let k = if i % 5 == 0 { r.range(0, 3) } else { r.range(0, 40) } as usize;
+                let mut set: Vec<String> = vec![];
+                let mut tries = 0;
+                while set.len() < k && tries < 400 {
+                    tries += 1;
+                    let (x, y) = (r.pick(&pool).clone(), r.pick(&pool).clone());
+                    if x == y {
+                        continue;
+                    }
+                    // NUL bytes cannot occur in denoms (utf-8 text of the denom alphabet); keep raw token ids as they are
+                    let e = format!("{x}.{y}");
+                    let rev = format!("{y}.{x}");
+                    if !set.contains(&e) && !set.contains(&rev) {
+                        set.push(e);
+                    }
+                }
+                let ids = if set.is_empty() { "-".to_string() } else { set.join(";") };
+                let limit = match r.below(5) { 0 => "-".to_string(), 1 => s(r.range(1, 5)), 2 => s(r.range(25, 40)), _ => s(r.range(1, 40)) };
+                let start = if set.is_empty() || r.chance(1, 3) {
+                    "-".to_string()
+                } else if r.chance(1, 8) {
+                    format!("{}.{}", r.pick(&pool), r.pick(&pool)) // a cursor that is not registered
+                } else {
+                    let e = r.pick(&set).clone();
+                    if r.chance(1, 2) { e } else { let (x, y) = e.split_once('.').unwrap(); format!("{y}.{x}") }
+                };
+                o.case("read_pairs", vec!["page".into(), ids.clone(), start, limit.clone()]);
+                if i % 2 == 0 {
+                    let l = if limit == "0" { "1".to_string() } else { limit };
+                    o.case("read_pairs", vec!["walk".into(), ids, l]);
+                }
+            }
+        }
+        "assert_operations" => {
+            let texts = ["uaura", "uusd", "contract1", "contract2", "x"];
+            let ent = |r: &mut Rng| {
+                let t = *r.pick(&texts);
+                format!("{}{}", if r.chance(1, 2) { "n" } else { "t" }, hexs(t.as_bytes()))
+            };
+            o.case("assert_operations", vec!["-".into()]);
+            for _ in 0..n {
+                let k = r.range(1, 5);
+                let mut ops: Vec<String> = vec![];
+                let mut cur = ent(r);
+                for _ in 0..k {
+                    let nxt = ent(r);
+                    let from = if r.chance(4, 5) { cur.clone() } else { ent(r) };
+                    ops.push(format!("{from}>{nxt}"));
+                    cur = nxt;
+                }
+                o.case("assert_operations", vec![ops.join(";")]);
+            }
+        }
+        _ => panic!("unknown registry family"),
+    }
+}
